@@ -37,6 +37,7 @@ type ChildSpec struct {
 	Seed   uint64 `json:"seed"`
 	Blocks int    `json:"blocks"` // number of synthetic block bodies (each yields all its variants)
 	Only   int    `json:"only"`   // -1: run every case; otherwise the index of the single case to run
+	Input  *childCase `json:"input,omitempty"` // replay: exactly these bytes (a net:block input needs a header of the child's own chain; if the chain differs, case `only` is regenerated instead)
 }
 
 // childCase is one input of the child stream.
@@ -228,7 +229,8 @@ func childCases(spec ChildSpec, headers [][]byte) (out []childCase) {
 func childBlocksMain() {
 	var spec ChildSpec
 	outDir := os.Getenv("C18_OUT")
-	if json.Unmarshal([]byte(os.Getenv("C18_SPEC")), &spec) != nil || spec.Blocks <= 0 || outDir == "" {
+	specb, _ := os.ReadFile(filepath.Join(outDir, "spec.json"))
+	if outDir == "" || json.Unmarshal(specb, &spec) != nil || spec.Blocks <= 0 {
 		fmt.Println("CHILD-BADSPEC")
 		os.Exit(3)
 	}
@@ -240,6 +242,18 @@ func childBlocksMain() {
 	e := NewEnv(vlib.NewRng(spec.Seed).Fork())
 	rn := NewRunner(e)
 	cases := childCases(spec, e.Spare)
+	if in := spec.Input; in != nil && len(in.Block) >= 160 {
+		usable := strings.HasPrefix(in.Kind, "lib:")
+		for _, sp := range e.Spare {
+			if H(sp[:80]) == in.Block[:160] {
+				usable = true
+			}
+		}
+		if usable {
+			cases = []childCase{*in}
+			spec.Only = in.Idx
+		}
+	}
 	say("CHILD-START %d", len(cases))
 	for _, cc := range cases {
 		if spec.Only >= 0 && cc.Idx != spec.Only {
@@ -263,7 +277,9 @@ func childBlocksMain() {
 		case cc.Kind == "net:block":
 			// a fresh copy: the handler keeps the payload as the block's Raw
 			o := rn.Do(Case{Cmd: "block", Pl: cc.Block, Note: "child"})
-			housekeeping()
+			if !o.Hang {
+				housekeeping()
+			}
 			switch {
 			case o.Panic != "":
 				verdict = "FAIL handler panics (" + o.Panic + " in " + o.Where + ")"
@@ -349,11 +365,15 @@ func (h *Harness) childOne(cs Case) {
 		exe = os.Args[0]
 	}
 	js, _ := json.Marshal(spec)
+	if os.WriteFile(filepath.Join(tmp, "spec.json"), js, 0600) != nil {
+		r.TieFail("child:infra", "cannot write the child's spec", nil)
+		return
+	}
 	ctx, cancel := context.WithTimeout(context.Background(), 150*time.Second)
 	defer cancel()
 	cmd := exec.CommandContext(ctx, exe)
 	// C18_LOUD: the child must not point fd 2 at /dev/null around handler calls - the runtime's crash report goes there
-	cmd.Env = append(os.Environ(), "C18_CHILD=blocks", "C18_SPEC="+string(js), "C18_OUT="+tmp, "TMPDIR="+tmp, "C18_LOUD=1")
+	cmd.Env = append(os.Environ(), "C18_CHILD=blocks", "C18_OUT="+tmp, "TMPDIR="+tmp, "C18_LOUD=1")
 	cmd.Dir = tmp
 	errb := &lastBytes{}
 	cmd.Stdout, cmd.Stderr = errb, errb
@@ -424,8 +444,9 @@ func (h *Harness) childOne(cs Case) {
 	what := fmt.Sprintf("%s on a %d-byte block (%d transactions announced, body shape %s): the whole PROCESS ended (%v; %s) at %s - no recover() can catch a panic in a worker goroutine",
 		cur.Kind, len(raw), cur.Ntx, cur.Shape, runErr, why, allFrames(crash))
 	r.Eval("child:"+cur.Kind, "childcrash"+fmt.Sprint(cur.Idx, spec.Seed))
+	one.Input = &cur
 	r.PropFail("child:crash:"+cur.Kind, what, map[string]interface{}{
-		"case": Case{Cmd: "@child", Note: "child", Child: &one}, "input": cur, "stderr": clip4k(crash)})
+		"case": Case{Cmd: "@child", Note: "child", Child: &one}, "stderr": clip4k(crash)})
 	r.Hit("child:CRASH")
 	if r.Replay == "" {
 		// everything else in this run calls the same code in-process: stop here, with the finding
